@@ -358,6 +358,44 @@ theorem System_window (s : SysState) (r : Request) (img : Bytes) (h : systemDump
     rw [h2]
     simp [TMem.bytes]
 
+/-- **Thread names (C15, end to end).** The `j`-th named thread the dumper read at enumeration has record `j` of the
+    thread-names stream: its id, and the location of its own name string, which follows the records. -/
+theorem System_name (s : SysState) (r : Request) (img : Bytes) (h : systemDump s r = .ok img)
+    (j tid : Nat) (us : List Nat) (hj : s.names[j]? = some (tid, us)) :
+    ∃ d, gatherDump s r = .ok d ∧
+      At img (acc16 d).pos (le 4 s.names.length) ∧
+      At img ((acc16 d).pos + 4 + 12 * j) (nameRecord tid ((acc16 d).pos + 4 + 12 * s.names.length + nameOff s.names j)) ∧
+      At img ((acc16 d).pos + 4 + 12 * s.names.length + nameOff s.names j) (mdStr us) := by
+  obtain ⟨d, hd, hi⟩ := systemDump_ok s r img h
+  obtain ⟨_, _, _, _, _, _, _, hnames⟩ := gatherDump_ok s r d hd
+  have := Image_name d j tid us (by rw [hnames]; exact hj)
+  simp only [hnames] at this
+  subst hi
+  exact ⟨d, hd, this⟩
+
+/-- **Modules (C08, end to end).** When the module content is the module list the mappings writer gathers over the
+    target's aggregated mappings (`Mod.moduleList`), every interesting mapping that no caller mapping covers and that has
+    a usable identifier has its record in the image's module list: base, size, CodeView record at the location the
+    record names, name string behind it. -/
+theorem System_module (s : SysState) (r : Request) (img : Bytes) (h : systemDump s r = .ok img)
+    (decode : Bytes → List Char) (utf16 : Bytes → List Nat)
+    (facts : Mapping → Mod.Facts) (us : Mod.UserMap → Option Bytes) (users : List Mod.UserMap)
+    (hmods : s.modules = (Mod.moduleList decode s.ms facts us users).map (toDModule utf16))
+    (m : Mapping) (hm : m ∈ s.ms) (hi : Mod.isInteresting m = true) (hc : Mod.isContainedIn m users = false)
+    (hid : Mod.idUsable (Mod.identifierOf (facts m)) = true) :
+    ∃ d k dm, gatherDump s r = .ok d ∧ d.modules[k]? = some dm ∧
+      dm.base = m.start ∧ dm.size = m.size % 2 ^ 32 ∧ dm.ident = Mod.identifierOf (facts m) ∧
+      dm.name = utf16 (Mod.effectivePath m (Mod.sonameOf (facts m))) ∧
+      At img ((acc1 d).pos + (moduleBlobs d.modules).length + 4 + 108 * k) (moduleRec (modulePos d k) dm) ∧
+      At img (modulePos d k) (le 4 0x4270454c ++ dm.ident) ∧
+      At img (modulePos d k + (4 + dm.ident.length)) (mdStr dm.name) := by
+  obtain ⟨d, hd, hdi⟩ := systemDump_ok s r img h
+  obtain ⟨_, _, _, _, _, _, hmod, _⟩ := gatherDump_ok s r d hd
+  obtain ⟨k, dm, h1, h2, h3, h4, h5, _, _, h8, h9, h10⟩ :=
+    E2E_module_in_image decode utf16 d s.ms facts us users (by rw [hmod]; exact hmods) m hm hi hc hid
+  subst hdi
+  exact ⟨d, k, dm, hd, h1, h2, h3, h4, h5, h8, h9, h10⟩
+
 /-- a one-thread target: a guard page below a one-page stack mapping of readable memory -/
 def sysExample : SysState where
   numWriters := 18
